@@ -12,6 +12,15 @@ SPEC = dict(
          'in the library, arity, class of every parameter and of the result; (transfer) position-coded bytes written through the Rust mirror are read '
          'through the C definition and vice versa for every mirrored struct; (call-through) crc8/16/32/64 known answers, pid pos/inc, tf, trajtrap, '
          'trajbell, trajpoly3/5/7, regress_simple, version driven through the binding\'s public API and compared bit for bit with the same computation in C, '
+         '(wrapper equivalence, twin execution) every pub fn of every impl block, every free pub fn (incl. mod mf), every trait-impl fn (Default, PartialOrd, PartialEq) '
+         'and every pub const (mf::*, fuzzy::*) of lib.rs is enumerated from the source; for each, random histories of 10-40 calls per object (300 per struct and width in '
+         'quick, 4000 in thorough; PRNG seeded from VERIF_SEED) apply every call twice - through the safe wrapper, and, after restoring the object and all caller arrays, '
+         'through the extern "C" function called directly with the arguments the documentation implies (inline functions of hpf/lpf, init macros, A_VERSION_n, '
+         'A_PID_FUZZY_BFUZZ and the enum values through C shims compiled against the real headers) - and compare result, object fields (padding excluded) and caller arrays '
+         '(with 40 sentinel elements behind every slice) bit for bit, all NaNs equal; constructors are compared with the C initialisation sequence run on a 0x5C-filled slot; '
+         'crc8/16/32/64 eval is additionally compared with a bitwise MSB-/LSB-first reference written in Rust, and after every new_*/gen_* a probe eval tells whether the object '
+         'evaluates with the function of the right bit order; violation keys api/<struct>::<fn>/result-differs-from-<c function> and .../state-differs-from-<c function>; '
+         'a public item of lib.rs that the module does not cover or did not exercise makes the run inconclusive (evidence: uncovered_wrappers, unexercised_wrappers, wrapper_twin_calls); '
          'all under ASan/UBSan. Both tiers run both real widths (f64 default and the f32 feature). distinct_nontrivial = distinct declarations (struct, function, static) '
          'and call-through scenarios compared on both sides.',
     exhaustive={},
@@ -20,10 +29,19 @@ SPEC = dict(
         '(void/char/u8) on either side',
         'a pure field rename is not an ABI change (positions of equal names are compared; version.alpha <-> a_version.alpha_ is normalised)',
         'crc8/16/32/64 wrappers have no C struct; they are checked through their functions\' parameter types and the known-answer calls',
-        'the cmake path of build.rs is not exercised'],
+        'the cmake path of build.rs is not exercised',
+        'wrapper equivalence, constructor reference: limits +-inf, state as a_*_init leaves it, every gain/weight 0, opr = a_pid_fuzzy_opr(EQU), trajbell/trajtrap all-zero '
+        '(the binding\'s own convention; the Java/Lua/Python/JS bindings of the same repository start with kp = k = 1 and wp = wi = wd = 0.1)',
+        'wrapper equivalence, preconditions of the histories (calls outside them were tried once by hand and are NOT silent, see level_note): every text handed to '
+        'version::parse / version::set_alpha carries its NUL terminator inside the slice; pid_fuzzy::bfuzz() is called only after set_bfuzz(); regress_linear has at least one '
+        'coefficient; x holds n*coef_n, y/err/pdm n elements; mgd batch >= 1; fuzzy rule bases are the valid triangular partitions of harness/h_cxxw.c',
+        'getters that have no C function (tf::input/num/output/den, regress_linear::coef) are compared with the C struct fields they expose'],
     level_text='Executed reflection on both sides of the FFI for EVERY mirrored struct and foreign item (complete enumeration of the finite set of declarations), '
                'plus executed cross-boundary byte transfers and call-throughs under ASan. The property is about declarations, so "all declarations, both real '
                'widths" is the whole quantifier; what remains out of reach are ABI-indistinguishable differences (listed under assumptions).',
-    level_note='trusted: gdb/DWARF for C field order, g++ type traits, rustc size_of/offset_of!, the small lib.rs parser in bin/c20.py (run fails as inconclusive if it finds implausibly few items)',
-    technique='executed layout/signature probes on both sides of the FFI + cross-boundary transfer and call-through under ASan',
+    level_note='seen by hand on the unchanged tree, outside the preconditions above (not judged by the check): version::parse(&str) and version::set_alpha(&[u8]) pass no length, '
+               'a_version_parse/a_version_set_alpha read past a heap slice that has no terminator (ASan heap-buffer-overflow, version.c:138 / :97); pid_fuzzy::new().bfuzz() builds a slice '
+               'from a null pointer (from_raw_parts_mut precondition abort); regress_linear over an empty coefficient slice divides by zero in pdm/bgd. '
+               'trusted: gdb/DWARF for C field order, g++ type traits, rustc size_of/offset_of!, the small lib.rs parser in bin/c20.py (run fails as inconclusive if it finds implausibly few items)',
+    technique='executed layout/signature probes on both sides of the FFI + cross-boundary transfer, call-through and wrapper-vs-C twin execution over random call histories under ASan',
 )
